@@ -69,7 +69,7 @@ class C16Machine(Machine):
            "target_column_last", "str_path", "pd_target_column", "later_row_also_fails",
            "result_missing_empty_cell", "target_cell_changed", "pd_missing_is_na", "pd_strict_raised",
            "zero_rows", "fault_in_other_column", "ambiguous_mode_converted_cell", "file_larger_than_8k", "table_ge_40_rows",
-           "eol_crlf", "eol_lf", "eol_mixed", "eol_cr", "eol_mixed_cr", "no_final_line_terminator", "sep_explicit_tab", "relative_path", "file_name_varied", "file_name_with_temp_or_backup_suffix", "same_path_again_after_failure",
+           "eol_crlf", "eol_lf", "eol_mixed", "eol_cr", "eol_mixed_cr", "table_on_another_file_system_than_the_temp_dir", "no_final_line_terminator", "sep_explicit_tab", "relative_path", "file_name_varied", "file_name_with_temp_or_backup_suffix", "same_path_again_after_failure",
            "same_path_again_after_success", "pd_target_is_source", "pd_dtype_object", "pd_dtype_string", "pd_dtype_category", "pd_category_with_unused_categories", "converter_subclass_with_identifier_hook", "pd_int_labels", "pd_int_labels_not_positions", "file_flags_left_to_defaults", "pd_flags_left_to_defaults", "cell_convertible_only_after_extension", "fault_in_header", "cell_with_unicode_line_boundary",
            "pd_index_custom", "pd_index_reversed", "pd_index_offset", "pd_index_duplicated", "pd_index_sliced",
            "pd_index_named", "pd_index_multi", "pd_index_shuffled_dup"]
@@ -95,6 +95,9 @@ class C16Machine(Machine):
             "ambiguous": rng.random() < 0.4,
             "path_kind": rng.choice(["str", "path", "str", "path", "relative"]),
             # shape of the input file: how its lines end, and whether the last line is terminated
+            # where the table lives: the system temp directory, or (when there is one) a directory on ANOTHER
+            # file system - what "write a scratch file and rename it over the original" must cope with
+            "where": rng.choice(["tmp", "tmp", "tmp", "other_fs"]),
             "file_name": rng.choice([None, None, None, "t.tsv", "t.csv", "t", "t.tmp", "t.bak", "t.tsv.tmp", "t.tsv.bak",
                                      ".t", "a.b.tsv", "with space.tsv", "sub/t.tsv", "t.new", "t.old", "t.tsv~"]),
             "eol": rng.choice(["crlf", "crlf", "lf", "lf", "mixed", "cr", "mixed_cr"]),
@@ -132,15 +135,19 @@ class C16Machine(Machine):
         self.conv = None
         self.dir = None
         self.plan = None
+        self.dir2 = None
+        self.cur_dir = None
         self.file_no = 0
         self.ff_nontrivial = False
         self.fault_nontrivial = False
         self.extended = False
 
     def close(self):
-        if self.dir and os.path.isdir(self.dir):
-            shutil.rmtree(self.dir, ignore_errors=True)
+        for d in (self.dir, getattr(self, "dir2", None)):
+            if d and os.path.isdir(d):
+                shutil.rmtree(d, ignore_errors=True)
         self.dir = None
+        self.dir2 = None
 
     # ----------------------------------------------------------- generation
     def gen_op(self, rng):
@@ -267,7 +274,7 @@ class C16Machine(Machine):
         base = {"op": "file", "func": func, "header": cfg["header"], "hdr": hdr, "column": col, "sep": cfg["sep"],
                 "strict": st, "passthrough": pt, "ambiguous": amb, "path_kind": cfg["path_kind"], "fault": None,
                 "eol": cfg["eol"], "final_eol": cfg["final_eol"], "omit_defaults": rng.random() < 0.5,
-                "file_name": cfg["file_name"]}
+                "file_name": cfg["file_name"], "where": cfg.get("where", "tmp")}
         plan = []
         # fault-free configuration: no cell raises under the chosen flags
         ff_rows = copy.deepcopy(rows)
@@ -554,7 +561,15 @@ class C16Machine(Machine):
         # every file lives in a directory of its own; its NAME is part of the input (suffixes such as
         # .tmp / .bak are what a temp-file or backup scheme would collide with)
         name = op.get("file_name") or f"t{self.file_no}.tsv"
-        path = os.path.join(self.dir, f"d{self.file_no}", name)
+        base = self.dir
+        if op.get("where") == "other_fs":
+            if self.dir2 is None:
+                self.dir2 = observe.scratch_dir("verif-c16-")        # /dev/shm where available
+            base = self.dir2
+            if os.stat(base).st_dev != os.stat(tempfile.gettempdir()).st_dev:
+                self.probe("table_on_another_file_system_than_the_temp_dir")
+        self.cur_dir = os.path.join(base, f"d{self.file_no}")
+        path = os.path.join(self.cur_dir, name)
         os.makedirs(os.path.dirname(path), exist_ok=True)
         with open(path, "wb") as f:
             f.write(data)
@@ -565,7 +580,7 @@ class C16Machine(Machine):
         if op["header"] and (hdr is None or len(hdr) == 0):
             return {"skipped": "zero-cell header is not a table with a header row"}
         path, before = self._materialise(op)
-        fdir = os.path.join(self.dir, f"d{self.file_no}")
+        fdir = self.cur_dir
         try:
             out = self._file_core(op, path, before)
             nxt = op.get("then")
